@@ -24,7 +24,7 @@ import (
 
 // C15 — an in-band bytestream is a reliable ordered byte pipe.
 
-func init() { register(&Scenario{ID: "C15", Run: runC15}) }
+func init() { register(&Scenario{ID: "C15", Run: runC15, Alt: runC15Third, AltEvery: 12}) }
 
 type ibbReader struct {
 	got  []byte
